@@ -268,10 +268,17 @@ class Server(Acceptor):
         self.serviceAccepts()  # populate .axes
         while self.axes:
             cs, ca = self.axes.popleft()
-            if ca != cs.getpeername() or self.eha[1] != cs.getsockname()[1]: # only port on eha
+            try:
+                pa = cs.getpeername()
+                ha = cs.getsockname()
+            except OSError as ex:  # peer already reset connection before it was accepted
+                logger.error("Accepted socket from %s already disconnected.\n%s\n", ca, ex)
+                cs.close()
+                continue
+            if ca != pa or self.eha[1] != ha[1]: # only port on eha
                 raise ValueError("Accepted socket host addresses malformed for "
                                  "peer. ca {0} != {1} or ha port {2} != {3}\n"
-                                 "".format(ca, cs.getpeername(), self.eha, cs.getsockname()))
+                                 "".format(ca, pa, self.eha, ha))
             remoter = Remoter(tymth=self.tymth,
                               ha=cs.getsockname(),
                               ca=ca,
@@ -370,7 +377,7 @@ class Server(Acceptor):
         try:
             self.ixes[ca].serviceReceives()
         except OSError as ex:
-            logger.error("Closing incoming socket on %s.\n%s\n", ix.cs.getpeername(), ex)
+            logger.error("Closing incoming socket on %s.\n%s\n", ca, ex)
             self.removeIx(ca=ca)  # also closes ix
 
 
@@ -382,7 +389,7 @@ class Server(Acceptor):
             try:
                 ix.serviceReceives()
             except OSError as ex:
-                logger.error("Closing incoming socket on %s.\n%s\n", ix.cs.getpeername(), ex)
+                logger.error("Closing incoming socket on %s.\n%s\n", ca, ex)
                 self.removeIx(ca=ca)  # also closes ix
 
 
@@ -555,10 +562,17 @@ class ServerTls(Server):
         self.serviceAccepts()  # populate .axes
         while self.axes:
             cs, ca = self.axes.popleft()
-            if ca != cs.getpeername() or self.eha[1] != cs.getsockname()[1]: # only port on eha
+            try:
+                pa = cs.getpeername()
+                ha = cs.getsockname()
+            except OSError as ex:  # peer already reset connection before it was accepted
+                logger.error("Accepted socket from %s already disconnected.\n%s\n", ca, ex)
+                cs.close()
+                continue
+            if ca != pa or self.eha[1] != ha[1]: # only port on eha
                 raise ValueError("Accepted socket host addresses malformed for "
                                  "peer. ca {0} != {1} or ha port {2} != {3}\n"
-                                 "".format(ca, cs.getpeername(), self.eha, cs.getsockname()))
+                                 "".format(ca, pa, self.eha, ha))
             remoter = RemoterTls(tymth=self.tymth,
                                  ha=cs.getsockname(),
                                  ca=ca,
@@ -738,7 +752,7 @@ class Remoter(tyming.Tymee):
                 self.cutoff = True  # this signals need to close/reopen connection
                 return bytes()  # data empty
             else:  # unexpected error
-                logger.error("Unexpected error on receive on %s.\n%s\n", self.cs.getpeername(), ex)
+                logger.error("Unexpected error on receive on %s.\n%s\n", self.ca, ex)
                 raise  # re-raise
 
         if data:  # connection open
@@ -980,12 +994,12 @@ class RemoterTls(Remoter):
                 self.cutoff = True  # this signals need to close/reopen connection
                 return bytes()  # data empty
             else:
-                logger.error("Unexpected error on receive on %s.\n%s\n", self.cs.getpeername(), ex)
+                logger.error("Unexpected error on receive on %s.\n%s\n", self.ca, ex)
                 raise  # re-raise
 
         if data:  # connection open
             if self.wl:  # log over the wire rx
-                self.wl.writeRx(data, who=self.cs.getpeername())
+                self.wl.writeRx(data, who=self.ca)
 
             if self.refreshable:
                 self.refresh()
